@@ -3,20 +3,22 @@
 // C17 — stale-lock detection is sound: live locks are safe, dead ones recover.
 //
 // Bubble scenarios on a virtual clock with every backend operation gated:
-//   live:  a holder keeps the lock for 1..500 heartbeat periods while 0..8 observers poll IsStale /
-//          ReleaseIfStale / TryLock (with and without override). Oracle: never reported stale, never
-//          released, never taken over.
-//   death: the holder "dies" right after its j-th backend operation (every j of the acquire and of two
-//          steady-state heartbeat rounds): all its later operations fail without effect. Oracle: every
-//          IsStale call that starts more than 2 periods after the last stamp returns true (so the lock
-//          is reported stale within 2 periods + one poll interval), no true before any stamp is older
-//          than 2 periods, and ReleaseIfStale followed by a new acquire succeeds.
+//
+//	live:  a holder keeps the lock for 1..500 heartbeat periods while 0..8 observers poll IsStale /
+//	       ReleaseIfStale / TryLock (with and without override). Oracle: never reported stale, never
+//	       released, never taken over.
+//	death: the holder "dies" right after its j-th backend operation (every j of the acquire and of two
+//	       steady-state heartbeat rounds): all its later operations fail without effect. Oracle: every
+//	       IsStale call that starts more than 2 periods after the last stamp returns true (so the lock
+//	       is reported stale within 2 periods + one poll interval), no true before any stamp is older
+//	       than 2 periods, and ReleaseIfStale followed by a new acquire succeeds.
 package main
 
 import (
 	"context"
 	"fmt"
 	"os"
+	"path/filepath"
 	"sync"
 	"time"
 
@@ -35,7 +37,7 @@ type scenario struct {
 	Acquire     string  `json:"acquire"` // try | lock | timeout
 	DeathOp     int     `json:"death_after_op,omitempty"`
 	Takeover    bool    `json:"holder_acquires_by_stale_takeover,omitempty"` // live cases: the holder takes over a dead predecessor's stale lock (override)
-	Previous    int     `json:"previous_holders"` // idle earlier holders of the same lock id still alive
+	Previous    int     `json:"previous_holders"`                            // idle earlier holders of the same lock id still alive
 	Policy      string  `json:"policy"`
 	AdvanceP    float64 `json:"advance_p"`
 	Index       int     `json:"index"`
@@ -54,13 +56,13 @@ type staleObs struct {
 }
 
 type result struct {
-	sc       scenario
-	w        *lockh.World
-	s        *sched.Sched
-	deadlock string
-	mu       sync.Mutex
-	obs      []staleObs
-	notes    []string
+	sc             scenario
+	w              *lockh.World
+	s              *sched.Sched
+	deadlock       string
+	mu             sync.Mutex
+	obs            []staleObs
+	notes          []string
 	holderAcquired bool
 	holderInc      int
 	deathT         time.Time
@@ -98,6 +100,9 @@ func runScenario(r *vrun.Run, sc scenario, keep bool) *result {
 		r.Fatalf("scratch: %v", err)
 	}
 	defer os.RemoveAll(dir)
+	if sub, _ := lockh.Names(sc.Index); sub != "" {
+		_ = os.MkdirAll(filepath.Join(dir, sub), 0o755)
+	}
 	rng := r.Rand(sc.Stream+"-sched", sc.Index)
 	var pol sched.Policy
 	switch sc.Policy {
@@ -110,7 +115,8 @@ func runScenario(r *vrun.Run, sc scenario, keep bool) *result {
 	s.MaxSteps = 6_000_000
 	res.s = s
 	res.deadlock = sched.Bubble(func() {
-		w := lockh.NewWorld(dir, "lk", s)
+		sub, id := lockh.Names(sc.Index)
+		w := lockh.NewWorld(filepath.Join(dir, sub), id, s)
 		w.KeepEvents = keep
 		res.w = w
 		s.Run(func() {
